@@ -34,6 +34,13 @@ CHECKS.update({
    technique="Coq proofs (radix sort by stable-pass invariant; in-place quicksort by slice invariant) about a hand-written model of sorters.c + differential correspondence",
    ref="DESIGN.md section 6 C11"),
 })
+CHECKS.update({
+ "C18": dict(
+   text="Theorems C18_sound and C18_complete: on ARBITRARY stored states (leaves and interior nodes whose next / firstbucket pointers are arbitrary identities), check() and _check() both accept a state if and only if it satisfies the globally stated stored invariant (key order, containment in the intervals promised by the separators, every leaf linked to its in-order successor and every firstbucket = leftmost leaf, uniform child kinds, non-empty nodes) -- so between them the tools have no blind spot for any single or multiple corruption; C18_accepts_api_trees: every tree satisfying the API invariant (C03) is accepted. The model of both checkers is compared with the C and Python implementations on valid trees and 12 classes of single corruptions installed through __setstate__, and with an independent Python statement of the invariant.",
+   note="Trusted: Coq kernel; Model/Check.v tied by correspondence; states in which one leaf object is the child of two parents are outside the state type; refcount/len<=size clauses of the C _check are not modelled. Print Assumptions: closed.",
+   technique="Coq proof (equivalence of two recursive checkers with a global invariant, nested induction) + differential correspondence on corrupted states",
+   ref="DESIGN.md section 6 C18"),
+})
 NOT_YET = {}
 
 def main():
